@@ -252,12 +252,20 @@ func (c *Checker) monitor(r *RunResult) []MonViolation {
 }
 
 // shrink: greedy delta-debugging on the op list with predicate `bad`.
+const shrinkBudget = 60 * time.Second
+
+// The search stops after shrinkBudget of wall-clock time (large histories on large configurations
+// cost a second or more per attempt); what has been reached by then is the replay.
 func shrinkOps(ops []Tok, bad func([]Tok) bool) []Tok {
 	cur := append([]Tok(nil), ops...)
 	chunk := len(cur) / 2
+	deadline := time.Now().Add(shrinkBudget)
 	for chunk >= 1 {
 		changed := false
 		for i := 0; i+chunk <= len(cur); {
+			if time.Now().After(deadline) {
+				return cur
+			}
 			cand := append(append([]Tok(nil), cur[:i]...), cur[i+chunk:]...)
 			if len(cand) > 0 && bad(cand) {
 				cur = cand
@@ -342,11 +350,12 @@ func (c *Checker) Check(cs *Case, nontrivial func(*RunResult) bool) {
 // ---------- generators shared by all structures ----------
 
 type Gen struct {
-	R     *rand.Rand
-	Small bool // keep states small (all-prefix sweeps are quadratic in the image size)
-	Tweak int  // 0 none; k>0: change the k-th constructor parameter (used to build near-twins)
-	Big   bool // HyperLogLog (in memory only): rarely draw 2^16 / 2^17 registers (32-bit products of the register count wrap there)
-	Wide  bool // Count-Min: rarely draw rows wider than 4096 cells (Redis script chunking / unpack limits)
+	R      *rand.Rand
+	Small  bool // keep states small (all-prefix sweeps are quadratic in the image size)
+	Tweak  int  // 0 none; k>0: change the k-th constructor parameter (used to build near-twins)
+	Big    bool // HyperLogLog (in memory only): rarely draw 2^16 / 2^17 registers (32-bit products of the register count wrap there)
+	CaseNo int  // number of the case within its suite (set by the driver)
+	Wide   bool // Count-Min: rarely draw rows wider than 4096 cells (Redis script chunking / unpack limits)
 }
 
 func (g *Gen) Intn(n int) int { return g.R.Intn(n) }
@@ -354,6 +363,14 @@ func (g *Gen) Pick(xs ...int) int {
 	return xs[g.R.Intn(len(xs))]
 }
 func (g *Gen) Chance(p float64) bool { return g.R.Float64() < p }
+
+// Rare decides whether a rare scenario is generated: by chance with probability p, and in any case
+// once every `period` cases of the suite (case numbers congruent to phase), so that every run of a
+// suite with at least `period` cases contains the scenario whatever the seed.
+func (g *Gen) Rare(p float64, period, phase int) bool {
+	c := g.Chance(p)
+	return c || g.CaseNo%period == phase
+}
 
 // ElementPool builds a pool of byte strings: empty, 1-byte, long (>16 bytes so block paths of the
 // hashes are hit), binary incl. invalid UTF-8.
